@@ -93,6 +93,11 @@ func canaries(orig cty.Value) []cty.Value {
 			out = append(out, cty.ListVal([]cty.Value{el[0].Mark(mark), el[1].Mark(mark)}))
 		}
 		if ty.IsTupleType() {
+			// a tuple marked as a whole whose elements are objects with canary attribute names
+			add(cty.TupleVal([]cty.Value{
+				cty.ObjectVal(map[string]cty.Value{canaryStr: cty.StringVal("x"), "a": cty.True}),
+				cty.ObjectVal(map[string]cty.Value{canaryStr2: cty.TupleVal([]cty.Value{cty.True})}),
+			}))
 			out = append(out, cty.TupleVal([]cty.Value{cn.Mark(mark), cs.Mark(mark), cty.True}))
 			// unmarked container of marked objects that share a canary attribute name with different types
 			out = append(out, cty.TupleVal([]cty.Value{
@@ -198,6 +203,12 @@ var extraFuncs = func() map[string]function.Function {
 			Type:   function.StaticReturnType(cty.Number),
 			Impl:   func(args []cty.Value, _ cty.Type) (cty.Value, error) { return cty.Zero, nil },
 		})
+		// the variadic form of the same
+		m["v"+name] = function.New(&function.Spec{
+			VarParam: &function.Parameter{Name: "xs", Type: ty, AllowMarked: allowMarked},
+			Type:     function.StaticReturnType(cty.Number),
+			Impl:     func(args []cty.Value, _ cty.Type) (cty.Value, error) { return cty.Zero, nil },
+		})
 	}
 	for _, am := range []bool{false, true} {
 		sfx := ""
@@ -264,7 +275,8 @@ func erroneous() []*ex.E {
 		// arguments whose conversion to the parameter type fails (or not) inside the value
 		for _, f := range []string{"mapn", "listn", "setb", "objn", "mapmapn", "listobj"} {
 			for _, sfx := range []string{"", "m"} {
-				out = append(out, ex.Call(f+sfx, cv), ex.Call(f+sfx, ex.Tuple(cv)), ex.Call(f+sfx, ex.Obj(ex.IdItem("a", cv))), ex.Call(f+sfx, ex.Obj(ex.IdItem("k", cv))),
+				out = append(out, ex.CallX(f+sfx, cv), ex.CallX(f+sfx, ex.Tuple(cv, cv)), ex.CallX("v"+f+sfx, cv), ex.Call("v"+f+sfx, cv, cv),
+					ex.Call(f+sfx, cv), ex.Call(f+sfx, ex.Tuple(cv)), ex.Call(f+sfx, ex.Obj(ex.IdItem("a", cv))), ex.Call(f+sfx, ex.Obj(ex.IdItem("k", cv))),
 					ex.Call(f+sfx, ex.Attr(cv, "a")), ex.Call(f+sfx, ex.Idx(cv, ex.Num("0"))))
 			}
 		}
@@ -402,33 +414,27 @@ func judge(c engine.Case) engine.Outcome {
 // line: when the leaked value is that of a name bound by a for expression /
 // directive (not a variable of the scope), every such leak is one defect.
 func textWriterClass(leak string) string {
-	i := strings.Index(leak, "with ")
-	for i >= 0 {
-		rest := leak[i+5:]
+	// the leak text quotes the rendering with %q: lines are separated by a literal backslash-n
+	for _, line := range strings.Split(leak, `\n`) {
+		if !strings.HasPrefix(line, "with ") {
+			continue
+		}
+		rest := line[5:]
 		j := strings.Index(rest, " as ")
 		if j < 0 || j > 40 {
-			break
+			continue
 		}
-		name := rest[:j]
-		lineEnd := strings.Index(rest, `\n`)
-		if lineEnd < 0 {
-			lineEnd = len(rest)
+		if scan("", rest) == "" {
+			continue
 		}
-		if scan("", rest[:lineEnd]) != "" {
-			root := name
-			if k := strings.IndexAny(root, ".["); k >= 0 {
-				root = root[:k]
-			}
-			if _, isPool := pool.Vars[root]; !isPool {
-				return "text-writer-value-of-iteration-variable"
-			}
-			return "text-writer-value-of-scope-variable"
+		root := rest[:j]
+		if k := strings.IndexAny(root, ".["); k >= 0 {
+			root = root[:k]
 		}
-		n := strings.Index(rest, "with ")
-		if n < 0 {
-			break
+		if _, isPool := pool.Vars[root]; !isPool {
+			return "text-writer-value-of-iteration-variable"
 		}
-		i = i + 5 + n
+		return "text-writer-value-of-scope-variable"
 	}
 	return ""
 }
